@@ -107,6 +107,8 @@ MUTANTS = [
     ('c05-location-ignores-placeholders-unfixed', 'C05', 'c05', 60, 'python/experiment/model/graph.py',
      "            if producer_identifier in workflowGraph._placeholders:\n                producer_identifier = workflowGraph._placeholders[producer_identifier]['latest']\n",
      ""),
+    ('c07-platform-environment-replaces-default-unfixed', 'C07', 'c07', 200, 'python/experiment/model/frontends/flowir.py',
+     "            layered = dict(environments.get(env_name) or {})\n", "            layered = {}\n"),
     ('c14-instance-description-written-in-place', 'C14', 'c14rt', 192, 'python/experiment/model/conf.py',
      "        temp_file = '%s.%s.tmp' % (instance_file, uuid.uuid4())\n", "        temp_file = instance_file\n"),
     ('c14-status-written-in-place', 'C14', 'c14rt', 192, 'python/experiment/model/data.py',
